@@ -385,6 +385,64 @@ def rule_binary_types(chk, prog, tier):
     r.exhaustive = (tier == 'thorough')
 
 
+# ------------------------------------------------------------------ C05.c2 pointer arithmetic scaling
+
+def rule_pointer_scale(chk, prog, tier):
+    r = chk.rule('C05.c2', 'pointer arithmetic is scaled by the size of the pointed-to type: p+i, i+p and p-i multiply the integer by sizeof(*p), p-q divides the byte difference by sizeof(*p) and has type ptrdiff_t',
+                 floor=30, oracle='C11 6.5.6p8-9')
+    fn = prog.require_func('mkbinaryexpr', 'expr.c')
+    models = {'fatal': lambda it, a, e: (_ for _ in ()).throw(Terminal('fatal', a)),
+              'error': lambda it, a, e: (_ for _ in ()).throw(Terminal('error', a))}
+    PT = [('char', 1), ('short', 2), ('int', 4), ('double', 8), ('S12', 12), ('pint', 8), ('A20', 20)]
+    for pname, size in PT:
+        for form in ('p+i', 'i+p', 'p-i', 'p-q'):
+            for ity in ('int', 'long', 'uchar'):
+                if form == 'p-q' and ity != 'int': continue
+                def runner(it):
+                    w = World(prog, it=it, target='x86_64-sysv')
+                    if pname == 'S12': base = w.mkstruct(size=12, align=4)
+                    elif pname == 'pint': base = w.mkptr(w.t('int'))
+                    elif pname == 'A20': base = it.call('mkarraytype', [w.t('int'), 0, 5])
+                    else: base = w.t(pname)
+                    pt = w.mkptr(base)
+                    p = w.mkexpr('EXPRIDENT', pt); q = w.mkexpr('EXPRIDENT', pt); i_ = w.mkexpr('EXPRIDENT', w.t(ity))
+                    loc = Ptr(Obj('loc', 'heap'), ())
+                    if form == 'p+i': e = it.call(fn, [loc, ev(prog, 'TADD'), p, i_])
+                    elif form == 'i+p': e = it.call(fn, [loc, ev(prog, 'TADD'), i_, p])
+                    elif form == 'p-i': e = it.call(fn, [loc, ev(prog, 'TSUB'), p, i_])
+                    else: e = it.call(fn, [loc, ev(prog, 'TSUB'), p, q])
+                    def K(x): return it.load(x.obj, ('kind',))
+                    def const_of(x):
+                        return it.load(x.obj, ('u', 'constant', 'u')) if K(x) == ev(prog, 'EXPRCONST') else None
+                    def strip(x):
+                        while K(x) == ev(prog, 'EXPRCAST'): x = it.load(x.obj, ('base',))
+                        return x
+                    op = it.load(e.obj, ('op',)); l = it.load(e.obj, ('u', 'binary', 'l')); r_ = it.load(e.obj, ('u', 'binary', 'r'))
+                    ty = it.load(e.obj, ('type',))
+                    if form != 'p-q':
+                        ok_ptr = strip(l).obj is p.obj and ty.obj is pt.obj and op == ev(prog, 'TADD' if form != 'p-i' else 'TSUB')
+                        scale = None
+                        if K(r_) == ev(prog, 'EXPRBINARY') and it.load(r_.obj, ('op',)) == ev(prog, 'TMUL'):
+                            a, b = it.load(r_.obj, ('u', 'binary', 'l')), it.load(r_.obj, ('u', 'binary', 'r'))
+                            for x, y in ((a, b), (b, a)):
+                                if const_of(x) is not None and strip(y).obj is i_.obj: scale = const_of(x)
+                        elif size == 1 and strip(r_).obj is i_.obj:
+                            scale = 1
+                        return ok_ptr, scale
+                    else:
+                        okty = ty.obj is w.t('long').obj and op == ev(prog, 'TDIV')
+                        d = const_of(r_)
+                        inner = K(l) == ev(prog, 'EXPRBINARY') and it.load(l.obj, ('op',)) == ev(prog, 'TSUB') and strip(it.load(l.obj, ('u', 'binary', 'l'))).obj is p.obj and strip(it.load(l.obj, ('u', 'binary', 'r'))).obj is q.obj
+                        return okty and inner, d
+                runs = explore(prog, runner, models, max_runs=2, on_unsupported='keep')
+                if len(runs) != 1 or runs[0].outcome != 'return':
+                    raise AnalysisBroken('mkbinaryexpr %s %s: %s %s' % (form, pname, runs[0].outcome if runs else '?', runs[0].detail if runs else ''))
+                shape_ok, k = runs[0].value
+                r.instance(shape_ok and k == size, 'ptrarith:%s,*p=%s,i=%s' % (form, pname, ity), 'expr.c:%s' % fn.get('line'),
+                           'expected %s by %d (sizeof *p); tree shape as expected: %s, factor found: %s' % ('division' if form == 'p-q' else 'scaling', size, shape_ok, k))
+    r.exhaustive = False
+
+
 # ------------------------------------------------------------------ C05.d integer literal typing
 
 LIT_ROWS = {   # suffix class -> (decimal list, non-decimal list)   C11 6.4.4.1p5
@@ -592,6 +650,7 @@ def run(chk, tier):
     chk.guard('C05.a', lambda: rule_promote(chk, prog, tier))
     chk.guard('C05.b', lambda: rule_common(chk, prog, tier))
     chk.guard('C05.c', lambda: rule_binary_types(chk, prog, tier))
+    chk.guard('C05.c2', lambda: rule_pointer_scale(chk, prog, tier))
     chk.guard('C05.d', lambda: rule_literals(chk, prog, tier))
     chk.guard('C05.d2', lambda: rule_literal_base(chk, prog, tier))
     chk.guard('C05.f', lambda: rule_descriptors(chk, prog, tier))
